@@ -13,9 +13,10 @@ fn build_config(c: &BCfg) -> BuildConfig {
         AppDir::Abs(s) => PathBuf::from(format!("{}{}", std::env::var("LCT_ABS_BASE").unwrap(), s)),
         AppDir::Missing => PathBuf::from("missing-dir"),
     };
-    let mut cfg = BuildConfig::new(c.builder.clone(), app);
+    // absolute app dirs go through the `app_dir` setter, env lists of two or more through `envs`
+    let mut cfg = if matches!(c.app, AppDir::Abs(_)) { let mut cfg = BuildConfig::new(c.builder.clone(), "replaced-by-app_dir-setter"); cfg.app_dir(app); cfg } else { BuildConfig::new(c.builder.clone(), app) };
     cfg.buildpacks(c.bps.iter().map(|b| BuildpackReference::Other(b.clone())).collect::<Vec<_>>());
-    for (k, v) in &c.env { cfg.env(k, v); }
+    if c.env.len() >= 2 { cfg.envs(c.env.clone()); } else { for (k, v) in &c.env { cfg.env(k, v); } }
     cfg.expected_pack_result(if c.expect_success { PackResult::Success } else { PackResult::Failure });
     cfg.target_triple(match c.triple { 'x' => "x86_64-unknown-linux-musl", 'a' => "aarch64-unknown-linux-musl", _ => "riscv64gc-unknown-linux-gnu" });
     if let Some(edits) = c.pre.clone() {
@@ -24,6 +25,13 @@ fn build_config(c: &BCfg) -> BuildConfig {
                 match e {
                     Edit::Write(p, b) => { let f = dir.join(p); std::fs::create_dir_all(f.parent().unwrap()).unwrap(); std::fs::write(f, b).unwrap(); }
                     Edit::Delete(p) => { let _ = std::fs::remove_file(dir.join(p)); }
+                    Edit::Append(p, b) => {
+                        use std::io::Write;
+                        let f = dir.join(p); std::fs::create_dir_all(f.parent().unwrap()).unwrap();
+                        std::fs::OpenOptions::new().append(true).create(true).open(f).unwrap().write_all(b).unwrap();
+                    }
+                    Edit::Rename(a, b) => { let t = dir.join(b); std::fs::create_dir_all(t.parent().unwrap()).unwrap(); std::fs::rename(dir.join(a), t).unwrap(); }
+                    Edit::Remove(p) => std::fs::remove_file(dir.join(p)).unwrap(),
                 }
             }
         });
@@ -35,7 +43,7 @@ fn container_config(c: &CCfg) -> ContainerConfig {
     let mut cfg = ContainerConfig::new();
     if let Some(e) = &c.entrypoint { cfg.entrypoint(e); }
     if let Some(w) = &c.command { cfg.command(w.clone()); }
-    for (k, v) in &c.env { cfg.env(k, v); }
+    if c.env.len() >= 2 { cfg.envs(c.env.clone()); } else { for (k, v) in &c.env { cfg.env(k, v); } }
     for p in &c.ports { cfg.expose_port(*p); }
     for (s, t) in &c.mounts { cfg.bind_mount(s, t); }
     cfg
@@ -61,6 +69,14 @@ fn run_acts(context: TestContext, acts: &[Act], bcfgs: &[BCfg], ccfgs: &[CCfg]) 
             Act::Sbom => context.download_sbom_files(|_files| ()),
             Act::Panic => panic!("injected panic in test closure"),
             Act::Rebuild(i, inner) => { context.rebuild(build_config(&bcfgs[*i]), |ctx| run_acts(ctx, inner, bcfgs, ccfgs)); return; }
+            Act::RebuildCtx(i, inner) => {
+                // the pattern of the `rebuild` docs: start from the context's own config, change it after the clone
+                let mut cfg = context.config.clone();
+                for (k, v) in &bcfgs[*i].env { cfg.env(k, v); }
+                cfg.expected_pack_result(if bcfgs[*i].expect_success { PackResult::Success } else { PackResult::Failure });
+                context.rebuild(cfg, |ctx| run_acts(ctx, inner, bcfgs, ccfgs));
+                return;
+            }
         }
     }
 }
